@@ -558,6 +558,11 @@ func (st *Runtime) executeList(list *ListNode) (returnValue reflect.Value) {
 				if has == false || block == nil {
 					node.errorf("unresolved block %q!!", node.Name)
 				}
+				for i := range node.Parameters.List {
+					if p := &node.Parameters.List[i]; p.Expression == nil {
+						node.errorf("missing value for argument '%s' in yield of block %q", p.Identifier, node.Name)
+					}
+				}
 				st.executeYieldBlock(block, block.Parameters, node.Parameters, node.Expression, node.Content)
 			}
 		case NodeBlock:
